@@ -97,7 +97,9 @@ class SegStream:
                 else:
                     hdr_ts, hdr_id, hdr_fl = rng.getrandbits(64), rng.getrandbits(32), rng.getrandbits(8) & 0xB3
                 m = message(hdr_ts, hdr_id, hdr_fl | seg, pt, body)
-                trail = rng.choice([b"", b"", b"\x01", b"\0" * 16, proto.rand_bytes(rng, 16), proto.rand_bytes(rng, 3)])
+                trail = rng.choice([b"", b"", b"\x01", b"\0" * 16, proto.rand_bytes(rng, 16), proto.rand_bytes(rng, 3),
+                                    # stale bytes of a reused transmit buffer: a whole well-formed message behind the segment's declared length
+                                    message(rng.getrandbits(64), rng.getrandbits(32), 0, 0x05, b"\x01\x02\x03"), b"\0" * 40])
                 fr = frame_header(ver, dev, mt, stream, seq) + m + trail
                 if k == nseg - 1:
                     ifid = idw if mt == 1 else 0
@@ -221,6 +223,49 @@ def alphabet_frames(rng, dev, stream, base_seq):
 TECMP_SAMPLE = bytes.fromhex("0012000103030002000000000000000700000000000000050009000000000123040102030401020300")
 
 
+def gen_decoder_copies(tier, rng):
+    """A Decoder is copied while reassemblies are open (a value type: implicit copy constructor).  Original and copy then receive the
+    rest of the message in either order and further traffic of their own: each must deliver what a decoder fed the same frames from
+    the start delivers, and neither may see what the other was fed after the copy."""
+    cases = []
+    for order in ("dc", "cd", "d", "c"):
+        for nopen in (1, 3):
+            eps = [(3 + i, 1 + i) for i in range(nopen)]
+            body = {e: [proto.rand_bytes(rng, rng.choice([8, 40, 400])) for _ in range(3)] for e in eps}
+            ops = []
+            for k, sg in enumerate((0x04, 0x08)):
+                for e in eps:
+                    ops.append(feed(frame_header(1, e[0], 1, e[1], 10 + k) + message(5, 6, sg, 0x05, body[e][k])))
+            ops += ["dec c copyfrom d", "dec d pending", "dec c pending"]
+            for who in order:
+                for e in eps:
+                    ops.append(feed(frame_header(1, e[0], 1, e[1], 12) + message(5, 6, 0x0C, 0x05, body[e][2])).replace("dec d feed", "dec %s feed" % who))
+                ops.append("dec %s pending" % who)
+            # the one that was not fed the end still holds its open reassemblies; a fresh message on it is delivered too
+            ops += ["dec d pending", "dec c pending"]
+            for who in "dc":
+                ops.append(feed(frame_header(1, 9, 1, 9, 1) + message(7, 8, 0, 0x05, b"\x01\x02\x03")).replace("dec d feed", "dec %s feed" % who))
+            cases.append(Case("c17copy", ops, nontrivial=True, tags=("decoder-copied-mid-reassembly",), meta={"noshrink": True}))
+    return cases
+
+
+def gen_many_open(tier, rng):
+    """Dozens of endpoints with a reassembly in progress at the same time (33, 40, 70 — legal traffic of a large installation), each
+    completed afterwards: every message must be delivered and the table must hold exactly the open ones in between."""
+    cases = []
+    for n in (33, 40, 70):
+        eps = [(1 + i // 8, i % 8) for i in range(n)]
+        ops = []
+        for d, s in eps:
+            ops.append(feed(frame_header(1, d, 1, s, 10) + message(d, s, 0x04, 0x08, bytes([d, s] * 5))))
+        ops.append("dec d pending")
+        for d, s in eps:
+            ops.append(feed(frame_header(1, d, 1, s, 11) + message(d, s, 0x0C, 0x08, bytes([s, d] * 3))))
+        ops.append("dec d pending")
+        cases.append(Case("c17many", ops, nontrivial=True, tags=("many-open-reassemblies",), meta={"noshrink": True}))
+    return cases
+
+
 def gen_huge_frames(tier, rng):
     """Frames of 2 GiB + 8 bytes and more (the remaining size was once narrowed to `int`: such a frame decoded to nothing and left an
     open reassembly of its endpoint pending).  The buffer is the given prefix followed by zeros; the prefix ends in a segmented message
@@ -292,6 +337,8 @@ def gen_c17(tier, rng):
                         ops += [feed(fr), "dec d pending"]
         cases.append(Case("c17", ops, nontrivial=True, tags=("orphan-matching-default-entry",)))
     cases += gen_huge_frames(tier, rng)
+    cases += gen_many_open(tier, rng)
+    cases += gen_decoder_copies(tier, rng)
     # the same histories answered by the LOW-LEVEL decoder model (DecoderLL.lean, proved to refine the model in Props/C17b.lean):
     # the harness treats feedll / pendingll as feed / pending, so this compares the transcription of decoder.cpp with the real decoder
     ll = []
@@ -428,6 +475,17 @@ def gen_c18(tier, rng):
                                 if x.startswith("dec d feed") and frame_ep(x.split(" ")[3]) == e:
                                     ops.append(x.replace("dec d feed", "dec q%d feed" % i))
                         cases.append(Case("c18d", ops, nontrivial=True, tags=("directed", "same-device-other-stream-mt%d-%d" % (vmt, omt)), meta={"nfull": len(full), "eps": eps}))
+    # dozens of endpoints in the middle of a reassembly at the same time (33, 40, 70: a large installation), each completed afterwards:
+    # the number of OTHER endpoints that are open must not matter to any of them
+    for c in gen_many_open(tier, rng):
+        full = [o for o in c.ops if o.startswith("dec d feed")]
+        eps = sorted({frame_ep(o.split(" ")[3]) for o in full} - {None})
+        ops = list(full)
+        for i, e in enumerate(eps):
+            for o in full:
+                if frame_ep(o.split(" ")[3]) == e:
+                    ops.append(o.replace("dec d feed", "dec q%d feed" % i))
+        cases.append(Case("c18many", ops, nontrivial=True, tags=("directed", "many-open-reassemblies"), meta={"nfull": len(full), "eps": eps, "noshrink": True}))
     return cases
 
 
@@ -503,7 +561,8 @@ def gen_c06(tier, rng):
         ops = [gen_enc.pline(p, "p%d" % i) for i, p in enumerate(define)]
         ops += ["enc e dev 7", "enc e stream 9"] + inplace
         ids = " ".join("p%d" % i for i in range(npk))
-        ops.append("enc e encode 0 %d %s" % (mx, ids))
+        # (padding up to a minimum is part of the stream: zero bytes behind a short last segment must not disturb its reassembly)
+        ops.append("enc e encode %d %d %s" % (rng.choice([0, 0, mx, mx // 2, 64 if mx >= 64 else mx]), mx, ids))
         # number of frames is known from the model of C08: compute here from the rules
         cap = mx - 8
         kinds = []          # per frame: "S" segment, "U" unsegmented messages
@@ -1417,11 +1476,12 @@ def pred_c17(case, impl, model, ctx):
     """implementation only, against the buffer-free specification automaton (openSpec / openBytes of Props/C17.lean replayed in
     Python): after every frame the pending table holds exactly the endpoints with a message in progress, each with at most
     16 + the segment bytes received for it"""
-    spec = {}      # ep -> (ver, mt, seq, bytes)
+    specs = {}     # decoder name -> {ep -> (ver, mt, seq, bytes)}
     for o, l in zip(case.ops, impl):
         if l.startswith("CRASH"):
             return False
         w = o.split(" ")
+        spec = specs.setdefault(w[1], {}) if w[0] == "dec" and len(w) > 2 else {}
         if w[0] == "dec" and w[2] in ("feed", "feedll", "feedhuge"):
             if w[2] == "feedhuge":
                 b = bytes.fromhex(w[4]) + bytes(min(int(w[3]) - len(w[4]) // 2, 64))      # the prefix ends in a segment: what follows it does not matter
@@ -1442,7 +1502,9 @@ def pred_c17(case, impl, model, ctx):
                 else:
                     spec.pop(ep, None)
         elif w[0] == "dec" and w[2] == "destroy":
-            spec = {}
+            specs[w[1]] = {}
+        elif w[0] == "dec" and w[2] == "copyfrom":
+            specs[w[1]] = dict(specs.get(w[3], {}))       # the copy has the original's open reassemblies, and its own from here on
         elif w[0] == "dec" and w[2] in ("pending", "pendingll"):
             if not l.startswith("pending "):
                 return False
